@@ -168,7 +168,12 @@ func HarnessFaults() {
 
 	opts := []jsonrpc.Option{jsonrpc.WithReconnectBackoff(time.Millisecond, 5*time.Millisecond)}
 	if !reconnect {
-		opts = append(opts, jsonrpc.WithNoReconnect())
+		// options are independent of one another: their order does not matter
+		if verif.Bool("noreconnect_option_first") {
+			opts = append([]jsonrpc.Option{jsonrpc.WithNoReconnect()}, opts...)
+		} else {
+			opts = append(opts, jsonrpc.WithNoReconnect())
+		}
 	}
 	var c C
 	closer, err := jsonrpc.NewMergeClient(context.Background(), l.URL(), "NS", []interface{}{&c}, nil, opts...)
@@ -474,4 +479,48 @@ func HarnessFailingNotifications() {
 	pc.CloseGraceful()
 	verif.Quiesce()
 	verif.Reach("failing-notifications-done")
+}
+
+// HarnessConcurrentSameMethod (C04): two calls of one method with different
+// arguments are served concurrently on one connection. Each token is executed
+// exactly once and each caller gets the answer to its own token; the server
+// shares no per-call state between them (race monitor on).
+func HarnessConcurrentSameMethod() {
+	h := &NH{runs: map[string]int{}}
+	srv := jsonrpc.NewServer()
+	srv.Register("N", h)
+	pc := verif.DialRaw(srv, nil)
+	a, b := verif.Int("a"), verif.Int("b")
+	verif.Assume(a != b)
+	ra, _ := json.Marshal(map[string]interface{}{"jsonrpc": "2.0", "id": 1, "method": "N.Ok", "params": []interface{}{a}})
+	rb, _ := json.Marshal(map[string]interface{}{"jsonrpc": "2.0", "id": 2, "method": "N.Ok", "params": []interface{}{b}})
+	pc.Send(ra)
+	pc.Send(rb)
+	for i := 0; i < 2; i++ {
+		m, ok := pc.Recv()
+		verif.Assert(ok, "connection-stays-up")
+		var r struct {
+			ID     float64 `json:"id"`
+			Result *int64  `json:"result"`
+		}
+		verif.Assert(json.Unmarshal(m, &r) == nil && r.Result != nil, "reply-is-a-result")
+		if r.Result != nil {
+			if r.ID == 1 {
+				verif.Assert(*r.Result == a, "first-call-answered-with-its-own-token")
+			} else {
+				verif.Assert(r.ID == 2 && *r.Result == b, "second-call-answered-with-its-own-token")
+			}
+		}
+	}
+	verif.Quiesce()
+	h.mu.Lock()
+	verif.Assert(h.runs["ok"] == 2, "each-call-executed-exactly-once")
+	h.mu.Unlock()
+	if n := verif.Races(); n != 0 {
+		verif.Class("race=" + verif.RaceDesc())
+		verif.Assert(false, "concurrent-calls-share-no-unsynchronised-state")
+	}
+	pc.CloseGraceful()
+	verif.Quiesce()
+	verif.Reach("concurrent-same-method-done")
 }
